@@ -3,6 +3,7 @@
 //!   vh-core record <machine> --cfg <id> --seed S --n N --out FILE   real executions -> ndjson trace
 mod bigint;
 mod cfgs;
+mod mle;
 mod msm;
 mod ser;
 mod poly;
@@ -60,6 +61,10 @@ fn replay_msm<D: curve::CurveDrv>(big: bool) -> util::Report where D::G: ark_ec:
     let stdin = std::io::stdin();
     msm::replay::<D>(util::tlc_transitions(BufReader::new(stdin.lock())), big)
 }
+fn replay_mle<F: poly::PF>(big: bool) -> util::Report {
+    let stdin = std::io::stdin();
+    mle::replay::<F>(util::tlc_transitions(BufReader::new(stdin.lock())), big)
+}
 fn replay_bigint<const N: usize>() -> util::Report {
     let stdin = std::io::stdin();
     bigint::replay::<N>(util::tlc_transitions(BufReader::new(stdin.lock())))
@@ -84,6 +89,7 @@ fn main() {
         ("replay", "poly") if !big => with_toy_prime_field!(cfg.as_str(), replay_poly(big)),
         ("replay", "ser") if !big => with_toy_curve!(cfg.as_str(), replay_ser(big)),
         ("replay", "msm") if !big => with_toy_curve!(cfg.as_str(), replay_msm(big)),
+        ("replay", "mle") if !big => with_toy_prime_field!(cfg.as_str(), replay_mle(big)),
         ("replay", "bigint") => { let nl: usize = cfg.parse().expect("--cfg <limbs>"); with_limbs!(nl, replay_bigint()) }
         ("record", "curve") => {
             let seed: u64 = arg(&args, "--seed").and_then(|s| s.parse().ok()).unwrap_or(1);
